@@ -395,7 +395,7 @@ fn rand32(rng: &mut ChaCha20Rng) -> [u8; 32] {
 fn counter(rng: &mut ChaCha20Rng, cap_n: u64) -> u64 {
     let max = u64::MAX / cap_n;
     match rng.gen_range(0..6) {
-        0 => *BOUNDARY.choose(rng).unwrap() % (max + 1),
+        0 => (*BOUNDARY.choose(rng).unwrap()).min(max),
         1 => max - rng.gen_range(0..3),
         2 => rng.gen_range(0..4),
         3 => rng.gen_range(0x0200_0000 - 2..0x0200_0000 + 3),
@@ -619,7 +619,16 @@ where
 }
 
 /// Compares the database and a root with the from-scratch reference.
-fn check_against_reference<V: Ver>(c: &mut Ctx, s: &Seq<V>, op: &str, live_root: Option<&V::NodeData>)
+fn check_against_reference<V: Ver>(c: &mut Ctx, s: &Seq<V>, op: &str, live_root: Option<&V::NodeData>) -> bool
+where
+    V::NodeData: Clone,
+{
+    let before = c.r.violation_count();
+    check_against_reference_inner(c, s, op, live_root);
+    c.r.violation_count() == before
+}
+
+fn check_against_reference_inner<V: Ver>(c: &mut Ctx, s: &Seq<V>, op: &str, live_root: Option<&V::NodeData>)
 where
     V::NodeData: Clone,
 {
@@ -720,6 +729,7 @@ where
     V::NodeData: Clone,
 {
     let n = s.leaves.len() as u64;
+    let viol_before = c.r.violation_count();
     let lf = leaf(rng, V::N_EXT, s.base + n, s.cap_n);
     let data = V::make(s.branch, &lf);
     let prev_root = match s.live.root_node() {
@@ -812,7 +822,11 @@ where
     }
     // (1) compare with the from-scratch reference
     let root = s.live.root_node().ok().map(|r| r.data().clone());
-    check_against_reference(c, s, "append_leaf", root.as_ref());
+    // once the array has left the reference the database is no MMR any more: positions computed
+    // from the leaf count would load arbitrary entries, so the sequence stops at the first finding
+    if !check_against_reference(c, s, "append_leaf", root.as_ref()) || c.r.violation_count() != viol_before {
+        return false;
+    }
     // (3) on the long-lived tree too, now and then (it must come back to the same state)
     if rng.gen_bool(0.15) {
         let lf2 = leaf(rng, V::N_EXT, s.base + n + 1, s.cap_n);
@@ -835,7 +849,7 @@ where
             Err(e) => c.viol(&format!("append_leaf:{}:full-tree:{e}", V::NAME), format!("append failed: {e}"), replay(s, json!({}))),
         }
     }
-    true
+    c.r.violation_count() == viol_before
 }
 
 fn step_truncate<V: Ver>(c: &mut Ctx, rng: &mut ChaCha20Rng, s: &mut Seq<V>) -> bool
@@ -844,6 +858,7 @@ where
 {
     let n = s.leaves.len() as u64;
     assert!(n >= 2);
+    let viol_before = c.r.violation_count();
     s.ops.push(format!("truncate@{n}"));
     // minimal view: the peaks; for an even leaf count also the right slope of the last peak
     let minimal = if n % 2 == 1 { View::PeaksOnly } else { View::PeaksAndSlope };
@@ -908,14 +923,17 @@ where
         c.viol(&format!("truncate_leaf:{}:len", V::NAME), format!("Tree::len {} after truncate, array has {}", s.live.len(), s.db.len()), replay(s, json!({})));
     }
     let root = s.live.root_node().ok().map(|r| r.data().clone());
-    check_against_reference(c, s, "truncate_leaf", root.as_ref());
-    true
+    check_against_reference(c, s, "truncate_leaf", root.as_ref()) && c.r.violation_count() == viol_before
 }
 
-fn run_sequence<V: Ver>(c: &mut Ctx, rng: &mut ChaCha20Rng, max_leaves: u64, max_ops: u64)
+/// `jump`: start from a large tree whose array is laid out by the reference (so that sizes far
+/// beyond what per-operation rebuilding affords from a one-leaf start are reached), then do a
+/// few operations around that size with all checks.
+fn run_sequence<V: Ver>(c: &mut Ctx, rng: &mut ChaCha20Rng, max_leaves: u64, max_ops: u64, jump: Option<u64>)
 where
     V::NodeData: Clone,
 {
+    let max_leaves = jump.map(|j| j + 64).unwrap_or(max_leaves);
     let branch: u32 = match rng.gen_range(0..5) {
         0 => 0,
         1 => u32::MAX,
@@ -936,8 +954,30 @@ where
     let e0 = REntry { children: None, node: first.clone() };
     let live = Tree::<V>::new(1, vec![(0, Entry::new_leaf(V::make(branch, &first)))], vec![]);
     let mut s = Seq::<V> { branch, base, cap_n, leaves: vec![first], db: vec![e0.ser()], live, ops: vec![] };
+    if let Some(n0) = jump {
+        while (s.leaves.len() as u64) < n0 {
+            let h = base + s.leaves.len() as u64;
+            s.leaves.push(leaf(rng, V::N_EXT, h, cap_n));
+        }
+        let rt = ref_tree(branch, &s.leaves);
+        s.db = rt.arr.iter().map(|e| e.ser()).collect();
+        s.ops.push(format!("start-from-reference-array@{n0}"));
+        match build_view::<V>(rng, branch, &s.db, n0, View::Everything) {
+            Ok(t) => s.live = t,
+            Err(e) => {
+                c.viol(&format!("view-construction:{}:Everything", V::NAME), format!("cannot load a {n0}-leaf array laid out by the reference: {e}"), replay(&s, json!({})));
+                return;
+            }
+        }
+        c.r.count("jump_start_sequences", 1);
+        c.r.set_max("max_jump_start_leaves", n0);
+        let root = s.live.root_node().ok().map(|r| r.data().clone());
+        if !check_against_reference(c, &s, "load", root.as_ref()) {
+            return;
+        }
+    }
     // the single-leaf array entry as the crate writes it
-    {
+    if jump.is_none() {
         let mut b = vec![];
         let _ = s.live.root_node().unwrap().node().write(&mut b);
         if b != s.db[0] {
@@ -957,8 +997,8 @@ where
     }
     .min(max_leaves);
     let mut ops = 0u64;
-    let mut phase = 0; // 0 grow to target, 1 random walk, 2 shrink to 1
-    let walk_ops = rng.gen_range(10..200);
+    let mut phase = if jump.is_some() { 1 } else { 0 }; // 0 grow to target, 1 random walk, 2 shrink to 1
+    let walk_ops = if jump.is_some() { rng.gen_range(8..24) } else { rng.gen_range(10..200) };
     let mut walked = 0;
     while ops < max_ops && c.r.time_left() {
         ops += 1;
@@ -975,6 +1015,9 @@ where
             1 => {
                 walked += 1;
                 if walked > walk_ops {
+                    if jump.is_some() {
+                        break;
+                    }
                     phase = 2;
                     continue;
                 }
@@ -1413,6 +1456,8 @@ fn main() {
 
     let max_leaves = args.get_u64("max-leaves", args.pick(600, 2500));
     let max_seq = args.get_u64("max-sequences", args.pick(100_000, 10_000_000));
+    let kmax = args.get_u64("jump-max-log2", args.pick(14, 17)) as u32;
+    let jump_every = args.get_u64("jump-every", args.pick(40, 25));
     let mut i = 0u64;
     while i < max_seq && c.r.time_left() {
         i += 1;
@@ -1424,10 +1469,26 @@ fn main() {
             _ => max_leaves,
         };
         let max_ops = if args.tier == Tier::Quick { 1500 } else { 8000 };
+        // now and then a large tree (sizes around 2^k up to 2^kmax), time permitting
+        let jump = if i % jump_every == 0 && c.r.frac_left() > 0.15 {
+            let k = rng.gen_range(10..=kmax);
+            let p = 1u64 << k;
+            Some(match rng.gen_range(0..7) {
+                0 => p - 1,
+                1 => p,
+                2 => p + 1,
+                3 => p + p / 2,
+                4 => p + (1u64 << rng.gen_range(0..k)),
+                5 => p - 2,
+                _ => p + rng.gen_range(2..p),
+            })
+        } else {
+            None
+        };
         match (i + args.shard) % 3 {
-            0 => run_sequence::<V1>(&mut c, &mut rng, ml, max_ops),
-            1 => run_sequence::<V2>(&mut c, &mut rng, ml, max_ops),
-            _ => run_sequence::<V3>(&mut c, &mut rng, ml, max_ops),
+            0 => run_sequence::<V1>(&mut c, &mut rng, ml, max_ops, jump),
+            1 => run_sequence::<V2>(&mut c, &mut rng, ml, max_ops, jump),
+            _ => run_sequence::<V3>(&mut c, &mut rng, ml, max_ops, jump),
         }
     }
     c.r.finish();
